@@ -354,6 +354,34 @@ Proof.
   apply map_ext. intro r. apply proj_subst.
 Qed.
 
+(** the consumer may also carry a LIMIT: it is the last step of both sides *)
+Definition with_limit (b : block) (l : option nat) : block :=
+  mkBlock (b_where b) (b_sel b) (b_distinct b) (b_order b) l.
+
+Lemma with_limit_self b : with_limit b (b_limit b) = b.
+Proof. destruct b; reflexivity. Qed.
+
+Lemma eval_block_limit b n fr :
+  eval_block (with_limit b (Some n)) fr
+  = mkFrame (out_cols (b_sel b)) (firstn n (rows (eval_block (with_limit b None) fr))).
+Proof. unfold eval_block, with_limit. cbn [b_where b_sel b_distinct b_order b_limit rows]. rewrite firstn_map. reflexivity. Qed.
+
+Definition can_ordmerge_l (cs : list string) (p b : block) : bool := can_ordmerge cs p (with_limit b None).
+Definition ordmerge_l (p b : block) : block := with_limit (ordmerge p (with_limit b None)) (b_limit b).
+
+Theorem ordmerge_l_sound p b fr :
+  can_ordmerge_l (cols fr) p b = true -> wf_frame fr ->
+  eval_block b (eval_block p fr) = eval_block (ordmerge_l p b) fr.
+Proof.
+  unfold can_ordmerge_l, ordmerge_l. intros Hc Hwf.
+  pose proof (ordmerge_sound p (with_limit b None) fr Hc Hwf) as E.
+  rewrite <- (with_limit_self b) at 1. destruct (b_limit b) as [n|].
+  - rewrite !eval_block_limit. rewrite E.
+    assert (E0 : with_limit (ordmerge p (with_limit b None)) None = ordmerge p (with_limit b None)) by reflexivity.
+    rewrite E0. f_equal. cbn [ordmerge b_sel with_limit]. symmetry. apply out_cols_subst_sel.
+  - exact E.
+Qed.
+
 (** * A filter on the output columns commutes with DISTINCT *)
 Lemma filter_dedup (q : row -> bool) (l : list row) : forall seenL seenR,
   (forall x, existsb (row_eqb x) seenR = true -> existsb (row_eqb x) seenL = true) ->
